@@ -11,6 +11,7 @@ TraceLog == ndJsonDeserialize("trace.ndjson")
 VARIABLE l,    \* next line to consume
          pend  \* a clean pass is inside its critical section: number of workers it must select
                \* (from the logged critical time and the stamps), or -1 outside a clean pass
+VARIABLE doneT \* per worker: (rank of) the time at which it finished its last connection
 
 \* Time stamps (lastUseTime at wp.stamp, criticalTime at wp.clean.crit) are logged as RANKS:
 \* the recorder replaces the nanosecond values of one execution by their order-preserving
@@ -35,13 +36,13 @@ InitVals ==
   /\ cleanSel' = <<>> /\ stopState' = "no" /\ stopIdx' = 1 /\ clock' = 0
   /\ served' = [c \in Conns |-> 0]
 
-TraceInit == Init /\ l = 1 /\ pend = -1
+TraceInit == Init /\ l = 1 /\ pend = -1 /\ doneT = [w \in Workers |-> 0]
 
 \* events emitted while holding wp.lock by somebody else cannot occur inside a clean pass
-Locked == pend = -1 /\ pend' = -1
-Free == UNCHANGED pend
+Locked == pend = -1 /\ pend' = -1 /\ UNCHANGED doneT
+Free == UNCHANGED <<pend, doneT>>
 
-TReset == IsEvent("init") /\ InitVals /\ pend' = -1
+TReset == IsEvent("init") /\ InitVals /\ pend' = -1 /\ doneT' = [w \in Workers |-> 0]
 TReuse == Locked /\ IsEvent("wp.get.reuse") /\ GetChReuse(E.c, E.w) /\ Len(ready') = E.a
 TCreate == Locked /\ IsEvent("wp.get.create") /\ GetChCreate(E.c) /\ wcount' = E.a
 TSpawn == Free /\ IsEvent("wp.spawn") /\ GetChSpawn(E.c, E.w)
@@ -49,26 +50,33 @@ TFail == Locked /\ IsEvent("wp.get.fail") /\ GetChFail(E.c) /\ wcount = E.a
 TSend == Free /\ IsEvent("wp.send") /\ Send(E.c, E.w)
 TRecv == Free /\ IsEvent("wp.recv") /\ Recv(E.w)
            /\ (IF E.c = 0 THEN Head(chan[E.w]) = Nil ELSE Head(chan[E.w]) = E.c)
-TDone == Free /\ IsEvent("wp.done") /\ ServeDone(E.w, E.a = 1) /\ wconn[E.w] = E.c
-TStamp == Free /\ IsEvent("wp.stamp") /\ StampAt(E.w, E.a)
+\* every line carries t = rank of the time at which it was logged (taken under the log's mutex,
+\* so t is monotonic along the log)
+TDone == UNCHANGED pend /\ IsEvent("wp.done") /\ ServeDone(E.w, E.a = 1) /\ wconn[E.w] = E.c
+         /\ doneT' = [doneT EXCEPT ![E.w] = E.t]
+\* lastUseTime is the moment the worker went idle: taken after it finished its connection and
+\* before this line was logged
+TStamp == Free /\ IsEvent("wp.stamp") /\ StampAt(E.w, E.a) /\ doneT[E.w] <= E.a /\ E.a <= E.t
 TRelease == Locked /\ IsEvent("wp.release") /\ (IF E.a = 1 THEN ReleaseOk(E.w) ELSE ReleaseStopped(E.w))
               /\ Len(ready') = E.b
 TExit == Locked /\ IsEvent("wp.exit") /\ WorkerExit(E.w) /\ wcount' = E.a
 \* a clean pass: "crit" opens it (under the lock), then exactly one of "sel" (k > 0 workers,
 \* k as the code's binary search over the stamps gives it) or "none" closes it
 TCleanCrit == IsEvent("wp.clean.crit") /\ pend = -1 /\ LockFree /\ Len(ready) = E.b
-              /\ pend' = CleanCountAt(E.a) /\ UNCHANGED vars
-TCleanNone == IsEvent("wp.clean.none") /\ pend = 0 /\ pend' = -1 /\ UNCHANGED vars
+              /\ pend' = CleanCountAt(E.a) /\ UNCHANGED <<vars, doneT>>
+TCleanNone == IsEvent("wp.clean.none") /\ pend = 0 /\ pend' = -1 /\ UNCHANGED <<vars, doneT>>
 TCleanSel == IsEvent("wp.clean.sel") /\ pend = E.a /\ pend' = -1 /\ CleanSelectK(E.a) /\ Len(ready) = E.b
+             /\ UNCHANGED doneT
 TCleanNil == Free /\ IsEvent("wp.clean.nil") /\ CleanNotify /\ Head(cleanSel) = E.w
 TStopBegin == Locked /\ IsEvent("wp.stop.begin") /\ StopBegin /\ Len(ready) = E.a
 TStopNil == Locked /\ IsEvent("wp.stop.nil") /\ StopNil /\ ready[stopIdx] = E.w
 TStop == Locked /\ IsEvent("wp.stop") /\ StopEnd
+TRestart == Locked /\ IsEvent("wp.start") /\ Restart
 
 TraceNext == \/ TReset \/ TReuse \/ TCreate \/ TSpawn \/ TFail \/ TSend \/ TRecv \/ TDone
-             \/ TStamp \/ TRelease \/ TExit \/ TCleanCrit \/ TCleanNone \/ TCleanSel \/ TCleanNil \/ TStopBegin \/ TStopNil \/ TStop
+             \/ TStamp \/ TRelease \/ TExit \/ TCleanCrit \/ TCleanNone \/ TCleanSel \/ TCleanNil \/ TStopBegin \/ TStopNil \/ TStop \/ TRestart
 
-TraceSpec == TraceInit /\ [][TraceNext]_<<vars, l, pend>>
+TraceSpec == TraceInit /\ [][TraceNext]_<<vars, l, pend, doneT>>
 
 \* invariants of the design, evaluated on every state reconstructed from the real execution
 TraceInv == Inv
